@@ -816,7 +816,10 @@ func tokenizeText(line string) (map[string]string, bool) {
 	return kv, true
 }
 
-func decodeRecord(hkind, derive int, b []byte) rawRec {
+// decodeRecord: the records must CARRY tag, ip, method, path, id (and code); further attributes are tolerated
+// (unknown keys for Text / JSON, extra trailing values for Nano). known tells whether a token is the id of a
+// request of the current batch: a Nano ERROR record has no keys, its id is looked up among the trailing tokens.
+func decodeRecord(hkind, derive int, b []byte, known func(string) bool) rawRec {
 	var r rawRec
 	withTop, group, withInner := derive == 1 || derive == 3, derive >= 2, derive == 3
 	if len(b) == 0 || b[len(b)-1] != '\n' {
@@ -925,10 +928,10 @@ func decodeRecord(hkind, derive int, b []byte) rawRec {
 			r.level = f[2]
 		}
 		switch {
-		case r.level == "INFO" && f[3] == "REQ_BEG" && len(f) == 8:
+		case r.level == "INFO" && f[3] == "REQ_BEG" && len(f) >= 8:
 			r.tag, r.ip, r.method, r.path, r.tid = f[3], f[4], f[5], f[6], f[7]
 			r.ok = true
-		case r.level == "INFO" && f[3] == "REQ_END" && len(f) == 10:
+		case r.level == "INFO" && f[3] == "REQ_END" && len(f) >= 10:
 			r.tag, r.ip, r.method, r.path, r.tid = f[3], f[6], f[7], f[8], f[9]
 			c, err := strconv.Atoi(f[4])
 			if _, err2 := strconv.Atoi(f[5]); err != nil || err2 != nil {
@@ -937,9 +940,27 @@ func decodeRecord(hkind, derive int, b []byte) rawRec {
 			r.code = c
 			r.ok = true
 		case r.level == "ERROR":
+			// "<stack> [derived values] <panic value> <id> [further values]": the id is the last token that is a
+			// known id, searched backwards over the tokens after the stack trace (the last token if none is)
 			k := strings.LastIndexByte(line, ' ')
+			start := len(f[0]) + 1 + len(f[1]) + 1 + len(f[2]) + 1
+			if tail := afterStack(line[start:]); len(tail) > 0 {
+				base := len(line) - len(tail)
+				for end := len(line); end > base; {
+					sp := strings.LastIndexByte(line[base:end], ' ')
+					if sp < 0 {
+						break
+					}
+					if known(line[base+sp+1 : end]) {
+						k = base + sp
+						line = line[:end]
+						break
+					}
+					end = base + sp
+				}
+			}
 			r.tid = line[k+1:]
-			rest := line[len(f[0])+1+len(f[1])+1+len(f[2])+1 : k]
+			rest := line[start:k]
 			if !strings.HasPrefix(rest, "goroutine ") {
 				return r
 			}
@@ -1093,7 +1114,7 @@ func (rn *runner) batch(s *site, specs []*reqSpec) {
 		if s.opt&2 != 0 {
 			b = ansiRe.ReplaceAll(b, nil)
 		}
-		d := decodeRecord(s.hkind, s.derive, b)
+		d := decodeRecord(s.hkind, s.derive, b, func(tok string) bool { return tidOwner[tok] != 0 })
 		if !d.ok {
 			rn.violation("undecodable-record", strconv.Itoa(s.hkind), hk.Hx(b))
 			continue
